@@ -265,8 +265,20 @@ func checkC13(c *Ctx, r *Report) {
 				}
 			})
 		}
-		for i, rm := range removes {
+		// where a removal made in a helper or in a literal handed to a helper (tryLocked(key, func() error {...})) takes
+		// place as far as evict's own loop is concerned
+		sitesOf := func(rm *ssa.Call) []ssa.Instruction { return anchorSites(li, f, rmFn[rm], rm, 0) }
+		factsOf := func(rm *ssa.Call) map[string]bool {
 			fs := factStrsCtx(li, rmFn[rm], rm)
+			for _, site := range sitesOf(rm) {
+				for k := range factStrs(f, site) {
+					fs[k] = true
+				}
+			}
+			return fs
+		}
+		for i, rm := range removes {
+			fs := factsOf(rm)
 			okStop := false
 			target := ""
 			for k := range fs {
@@ -282,6 +294,11 @@ func checkC13(c *Ctx, r *Report) {
 			r.Check(okStop, "C13.R2", fmt.Sprintf("evict: removal #%d only while size > target", i+1), c.InstrPos(rm), "dominated in the iteration by getCacheSize() <= target being false", "a removal in evict is not preceded by the 'target reached' test: eviction continues below the target")
 			// the loop exit test is re-evaluated per iteration: the getCacheSize call sits inside the loop
 			inLoop := reachableInstr(rm, rm, nil)
+			for _, site := range sitesOf(rm) {
+				if reachableInstr(site, site, nil) {
+					inLoop = true
+				}
+			}
 			if !inLoop {
 				// the removal sits in a helper called from the loop
 				for _, cs := range li.Callers[rmFn[rm]] {
@@ -365,7 +382,7 @@ func checkC13(c *Ctx, r *Report) {
 			// the removal loop walks the sorted slice from index 0 upwards: range loop over the sorted slice
 			okWalk := false
 			for _, rm := range removes {
-				fs := factStrsCtx(li, rmFn[rm], rm)
+				fs := factsOf(rm)
 				if hasFact(fs, "rangeindex+1<len(", true) {
 					okWalk = true
 				}
@@ -481,6 +498,30 @@ func checkC13(c *Ctx, r *Report) {
 					}
 				}
 				r.Check(good, "C13.R5", fmt.Sprintf("cleanup: key collected only if expired #%d", nApp), c.InstrPos(call), "append is on the Expires-before-now edge", "keys of entries that are not expired are collected for removal")
+			})
+		}
+		// ... or put into a local set / map keyed by the cache key
+		for _, g := range grp {
+			eachInstr(g, func(in ssa.Instruction) {
+				mu, ok := in.(*ssa.MapUpdate)
+				if !ok {
+					return
+				}
+				if _, tracked := trackedMapField(mu.Map); tracked {
+					return
+				}
+				mt, isM := mu.Map.Type().Underlying().(*types.Map)
+				if !isM || !strings.HasSuffix(canonTypes(mt.Key().String()), "cache.CacheKey") {
+					return
+				}
+				nApp++
+				good := false
+				for _, fc := range factsAt(g, mu) {
+					if exp, known := expiredWhenTrueF(fc.cond, "Expires"); known && exp == fc.truth {
+						good = true
+					}
+				}
+				r.Check(good, "C13.R5", fmt.Sprintf("cleanup: key collected only if expired #%d", nApp), c.InstrPos(mu), "the insert is on the Expires-before-now edge", "keys of entries that are not expired are collected for removal")
 			})
 		}
 		r.Floor("C13.R5", nApp, 1, "key collection sites")
